@@ -146,17 +146,21 @@ def run(eng: Engine, ck: Check):
             if a and a[0] in ('eq', 'in', 'is') and mentions_attr(a[1], 'state') and enum_members_in(a[2]):
                 return set(enum_members_in(a[2]))
             return None
+        def admitted_states(node) -> set:
+            """states a transfer can be in when `node` runs: the dominating guards intersected (a guard taken false removes its states)"""
+            adm = set(states)
+            for e_, pol_, _ in eng.guards_at(rc, node):
+                s_ = admitted_by(e_, True)
+                if s_ is not None:
+                    adm = adm & s_ if pol_ else adm - s_
+            return adm
         covered = set()
-        for n in c.nodes:
-            if n.kind == 'assume':
-                for e_, pol_ in split_conj(n.ast, n.polarity):
-                    adm = admitted_by(e_, pol_)
-                    if adm == {'INITIALIZING'}:
-                        q = [x for x in calls_in(lp) if call_name(x) == 'queue' and any(a2 is n for _, _, a2 in eng.guards_at(rc, x))]
-                        if q:
-                            covered.add('INITIALIZING')
-                    elif adm == {'DOWNLOADING', 'UPLOADING'}:
-                        covered |= adm
+        for x in calls_in(lp):
+            if call_name(x) == 'queue' and isinstance(x.func, ast.Attribute) and mentions_attr(x.func.value, 'state') and admitted_states(x) == {'INITIALIZING'}:
+                covered.add('INITIALIZING')
+        for f_, s_, v_ in eng.stores_to_attr('state', [rc]):
+            if admitted_states(s_) == {'DOWNLOADING', 'UPLOADING'}:
+                covered |= {'DOWNLOADING', 'UPLOADING'}
         ck.ob('R-C17-REPAIR', rc, lp, f'every in-progress state {sorted(proc)} has a repair branch', proc <= covered and bool(proc), f'covered {sorted(covered)}',
               construct='repair covers processing states')
         it = eng.func(TMODEL, 'Transfer.is_transferring')
@@ -182,19 +186,13 @@ def run(eng: Engine, ck: Check):
         st_store = [s for f, s, v in eng.stores_to_attr('state', [rc])]
         ok = len(st_store) == 1 and len(inst) == 1 and inst[0] in list(ast.walk(st_store[0].value)) and unparse(inst[0].args[1]) == tv and \
             isinstance(st_store[0].targets[0], ast.Attribute) and unparse(st_store[0].targets[0].value) == tv and \
-            any(admitted_by(e, pol) == {'DOWNLOADING', 'UPLOADING'} for e, pol, _ in eng.guards_at(rc, st_store[0]))
+            admitted_states(st_store[0]) == {'DOWNLOADING', 'UPLOADING'}
         ck.ob('R-C17-REPAIR', rc, lp, 'the repaired state object is installed on the transfer', ok, '', construct='repair installs state')
     # repairs that go through the state machine must be defined for EVERY state the guard admits (an undefined operation is a silent refusal)
     for x in calls_in(rc.node):
         if isinstance(x.func, ast.Attribute) and isinstance(x.func.value, ast.Attribute) and x.func.value.attr == 'state' and x.func.attr in \
                 ('queue', 'complete', 'incomplete', 'fail', 'abort', 'pause', 'initialize', 'start_transferring'):
-            admitted = None
-            for e, pol, _ in eng.guards_at(rc, x):
-                adm_ = admitted_by(e, pol) if loops else None
-                if adm_ is not None:
-                    admitted = adm_
-            if admitted is None:
-                admitted = set(states)
+            admitted = admitted_states(x) if loops else set(states)
             undefined = sorted(v for v in admitted if v in states and x.func.attr not in states[v].methods)
             ck.ob('R-C17-REPAIR', rc, x, f'repair `state.{x.func.attr}()` is a defined transition for every state it can be applied to here {sorted(admitted)}',
                   not undefined, f'{x.func.attr}() is not defined for {undefined}: the base class refuses silently and the transfer stays in that state',
